@@ -105,14 +105,31 @@ def confs_named(name):
     if name == 'mm:psk-swapped':
         return base(a_over={'my_auth': {"id": "alice@openikev2", "psk": "testing2"},
                             'peer_auth': {"id": "bob@openikev2", "psk": "testing"}})
+    if name.startswith('idtype:'):
+        return base()
     raise HarnessError(name)
+
+
+def post_load(w, name):
+    """peers that type their identity differently from what pyikev2's own loader would derive (another implementation):
+    same octets, other ID type"""
+    from message import PayloadID
+    if name == 'idtype:a-presents-fqdn':
+        list(w.endpoints['A'].conf.ike_configurations.values())[0].my_auth.id.id_type = PayloadID.Type(2)
+    elif name == 'idtype:a-presents-key-id':
+        list(w.endpoints['A'].conf.ike_configurations.values())[0].my_auth.id.id_type = PayloadID.Type(11)
+    elif name == 'idtype:b-presents-fqdn':
+        list(w.endpoints['B'].conf.ike_configurations.values())[0].my_auth.id.id_type = PayloadID.Type(2)
+    elif name == 'idtype:b-presents-key-id':
+        list(w.endpoints['B'].conf.ike_configurations.values())[0].my_auth.id.id_type = PayloadID.Type(11)
 
 
 GOOD = ['psk', 'rsa', 'psk-multi', 'psk-sha1-aes128-modp', 'psk-sha512-ecp384', 'fqdn-ids', 'ip-ids']
 MISMATCH = ['mm:b-expects-other-psk', 'mm:a-expects-other-psk', 'mm:b-expects-other-id', 'mm:a-expects-other-id',
             'mm:b-expects-id-as-fqdn', 'mm:b-expects-prefix-id', 'mm:a-sends-rsa-b-expects-psk',
             'mm:a-sends-psk-b-expects-rsa', 'mm:b-has-wrong-pubkey', 'mm:a-signs-with-other-key',
-            'mm:b-has-pubkey-and-psk-a-sends-psk-wrong', 'mm:psk-swapped']
+            'mm:b-has-pubkey-and-psk-a-sends-psk-wrong', 'mm:psk-swapped', 'idtype:a-presents-fqdn',
+            'idtype:a-presents-key-id', 'idtype:b-presents-fqdn', 'idtype:b-presents-key-id']
 
 
 # ------------------------------------------------------------------ the observer's judgement
@@ -309,6 +326,7 @@ def run_plan(conf_name, plan):
     returns (world, delivered, info)"""
     confs = confs_named(conf_name)
     w = S.new_world(confs)
+    post_load(w, conf_name)
     w.sent_log = []
     delivered = []
     w.step(('acquire', 'A', 0, 0))
@@ -540,6 +558,97 @@ def adversary_ke(body):
 
 # ------------------------------------------------------------------ full man in the middle
 
+def _mallory(w, conf_name):
+    import configuration
+    from ipaddress import ip_address
+    m_ep = Endpoint('M', ['10.66.66.66'])
+    m_ep.world = w
+    mconf = S.base_confs(a_over={'my_auth': {"id": "alice@openikev2", "psk": "mallory-guess"}},
+                         b_over={'my_auth': {"id": "bob@openikev2", "psk": "mallory-guess"}})
+
+    def as_m(fn):
+        CTX.world, CTX.ep = w, m_ep
+        try:
+            return fn()
+        finally:
+            CTX.world, CTX.ep = None, None
+    conf_as_b = as_m(lambda: configuration.Configuration([ip_address(B_ADDR)], mconf['B']))
+    conf_as_a = as_m(lambda: configuration.Configuration([ip_address(A_ADDR)], mconf['A']))
+    return as_m, conf_as_a, conf_as_b
+
+
+def run_impostor_responder(notify, auth_kind):
+    """Mallory answers A as if she were B (own DH), then sends an IKE_AUTH response that refuses the CHILD_SA and
+    carries an AUTH payload she cannot compute"""
+    import ikesa
+    from ipaddress import ip_address
+    from message import Message, PayloadIDr, PayloadAUTH, PayloadNOTIFY
+    w = S.new_world(confs_named('psk'))
+    w.sent_log = []
+    delivered = []
+    as_m, conf_as_a, conf_as_b = _mallory(w, 'psk')
+    w.step(('acquire', 'A', 0, 0))
+    msg1 = w.net[0]
+    w.step(('drop', msg1.id))
+    m_resp = as_m(lambda: ikesa.IkeSa(False, msg1.data[0:8], conf_as_b.get_ike_configuration(ip_address(B_ADDR), ip_address(A_ADDR)),
+                                      ip_address(B_ADDR), ip_address(A_ADDR)))
+    msg2m = as_m(lambda: m_resp.process_message(msg1.data))
+    delivered.append(('A', bytes(msg2m)))
+    w.step(('inject', 'A', bytes(msg2m), B_ADDR))
+    msg3 = w.net[0]
+    w.step(('drop', msg3.id))
+    a3 = as_m(lambda: Message.parse(msg3.data, crypto=m_resp.peer_crypto))
+    a_auth = [p for p in a3.encrypted_payloads if int(p.type) == F.AUTH][0]
+    auth = {'zeros': PayloadAUTH(2, b'\0' * len(a_auth.auth_data)), 'reflected': a_auth,
+            'random': PayloadAUTH(2, bytes((i * 37 + 11) & 0xFF for i in range(len(a_auth.auth_data))))}[auth_kind]
+    payloads = ([PayloadNOTIFY(0, notify)] if notify else []) + [PayloadIDr(3, b'bob@openikev2'), auth]
+    m_resp.peer_msg_id = 1
+    res4 = as_m(lambda: m_resp.generate_response(35, payloads).to_bytes())
+    delivered.append(('A', bytes(res4)))
+    w.step(('inject', 'A', bytes(res4), B_ADDR))
+    w.net[:] = []
+    return w, delivered
+
+
+def run_impostor_initiator(conf_name, guess):
+    """Mallory initiates to B as if she were A (own DH) and authenticates with method PSK keyed with a guess (the empty
+    secret, B's own secret, the identity); B may be configured for PSK or for RSA only"""
+    import ikesa
+    from ipaddress import ip_address
+    from message import PayloadAUTH
+    confs = confs_named(conf_name)
+    w = S.new_world(confs)
+    w.sent_log = []
+    delivered = []
+    as_m, conf_as_a, conf_as_b = _mallory(w, conf_name)
+    ikeconf = conf_as_a.get_ike_configuration(ip_address(A_ADDR), ip_address(B_ADDR))
+    m_init = as_m(lambda: ikesa.IkeSa(True, b'\0' * 8, ikeconf, ip_address(A_ADDR), ip_address(B_ADDR)))
+    entry = ikeconf.protect[0]
+    msg1m = as_m(lambda: m_init.process_acquire(entry.my_ts, entry.peer_ts, entry.index))
+    delivered.append(('B', bytes(msg1m)))
+    w.step(('inject', 'B', bytes(msg1m), A_ADDR))
+    if not w.net:
+        return w, delivered
+    msg2 = w.net[0]
+    w.step(('drop', msg2.id))
+    as_m(lambda: m_init.process_message(msg2.data))
+    req = m_init.request
+    resp = RC.decode(msg2.data)
+    prop = [p for p in resp['payloads'] if p[0] == 'SA'][0][1][0]
+    prf_name = RK.PRF_IDS[{t[0]: t for t in prop[3]}[2][1]]
+    nr = [p for p in resp['payloads'] if p[0] == 'NONCE'][0][1]
+    idp = [p for p in req.encrypted_payloads if int(p.type) == F.IDi][0]
+    id_body = bytes([int(idp.id_type), 0, 0, 0]) + bytes(idp.id_data)
+    octets = RK.signed_octets(bytes(msg1m), nr, prf_name, m_init.ike_sa_keyring.sk_pi, id_body)
+    forged = PayloadAUTH(2, RK.psk_auth(prf_name, guess, octets))
+    req.encrypted_payloads = [forged if int(p.type) == F.AUTH else p for p in req.encrypted_payloads]
+    out3 = bytes(as_m(lambda: req.to_bytes()))
+    delivered.append(('B', out3))
+    w.step(('inject', 'B', out3, A_ADDR))
+    w.net[:] = []
+    return w, delivered
+
+
 def run_mitm(variant):
     """Mallory runs IKE_SA_INIT with both sides (own DH, own nonces) and then tries to get through IKE_AUTH without a
     credential, using two real IkeSa objects as her protocol engine."""
@@ -679,8 +788,17 @@ def discover_labels(conf):
 
 def work(case):
     if case[0] == 'mitm':
-        w, delivered = run_mitm(case[1])
-        confs = confs_named('psk')
+        if case[1].startswith('impostor-responder:'):
+            _, notify, auth_kind = case[1].split(':')
+            w, delivered = run_impostor_responder(int(notify), auth_kind)
+            confs = confs_named('psk')
+        elif case[1].startswith('impostor-initiator|'):
+            _, conf, guess = case[1].split('|')
+            w, delivered = run_impostor_initiator(conf, bytes.fromhex(guess))
+            confs = confs_named(conf)
+        else:
+            w, delivered = run_mitm(case[1])
+            confs = confs_named('psk')
         applied = {}
     else:
         conf, plan = case
@@ -725,6 +843,9 @@ def main():
     other_rsa()
     cases = plans_quick()
     cases += [('mitm', v) for v in ('own-auth-guessed-psk', 'relay-alices-id-and-auth', 'relay-alices-auth-only')]
+    cases += [('mitm', 'impostor-responder:%d:%s' % (n, a)) for n in (0, 38, 14, 35) for a in ('zeros', 'reflected', 'random')]
+    cases += [('mitm', 'impostor-initiator|%s|%s' % (c, g.hex())) for c in ('psk', 'rsa', 'mm:b-has-pubkey-and-psk-a-sends-psk-wrong')
+              for g in (b'', b'testing2', b'alice@openikev2', b'testing-not')]
     outcomes = collections.Counter()
     n_est = 0
     results = ck.pmap(work, cases)
